@@ -4,7 +4,7 @@
 open Zutil
 open Version
 let z s = z_of_string s
-let n s = nat_of_int (int_of_string s)
+let n s = let i = int_of_string s in nat_of_int (if i < 0 then 100000 else i)   (* -1 = SIZE_MAX on the C++ side: any huge index *)
 let b s = s <> "0"
 let parse_op tok =
   match String.split_on_char ',' tok with
